@@ -242,6 +242,23 @@ def _behaviour_slice(args):
     expect = []
     nrules = 0
     flat = [(ns, cls, rule) for ns, cls in classes for rule in cls.rules()]
+    import engine_corr as ec
+    # rules of the same name in OTHER modules see every input first (parse and a listing): state kept under a rule's name or
+    # printed form instead of under the rule object would then answer for the wrong module
+    namesakes = {}
+    for _ns, _cls, _rule in flat:
+        namesakes.setdefault(_rule.name.lower(), []).append(_rule)
+
+    def prime(rule, s, i):
+        for other in namesakes.get(rule.name.lower(), [])[:4]:
+            if other is rule:
+                continue
+            for call in (lambda: other.parse(s, i), lambda: list(other.lparse(s, i))):
+                try:
+                    ec.with_budget(1.0, call, None)
+                except (P.ParseError, P.GrammarError, RecursionError):
+                    pass
+
     for j, (ns, cls, rule) in enumerate(flat):
         if j % nslices != k:
             continue
@@ -270,23 +287,24 @@ def _behaviour_slice(args):
                 continue
             seen.add(s)
             i = 0 if rng.random() < 0.85 else rng.randint(0, len(s))
-            py = lib.py_lparse(P, rule, s, i, full=False)
+            prime(rule, s, i)
+            py = ec.py_lparse_disturbed(P, rule, s, i)[0]
+            pp = lib.py_parse(P, rule, s, i)      # Rule.parse on the same request: must be the longest listed end
             c = lib.cps(s)
             lines.append(f"ends {idx[key]} {i}" + ((" " + c) if c else ""))
-            expect.append((ns, rule.name, s, i, py))
+            expect.append((ns, rule.name, s, i, py, pp))
         # one LONG input for every fifth rule (a pumped sentence, hundreds of characters): against the reference set
         # semantics of the same reading (the model engine builds every tree and is too slow for these)
         if j % 5 == 0 and cands and cands[0]:
             base = cands[0]
             kk = rng.randrange(len(base))
             s = base[:kk] + base[kk] * rng.randint(270, 420) + base[kk:]
-            import engine_corr as ec
             py = ec.with_budget(ec.CASE_BUDGET_S, lambda: lib.py_lparse(P, rule, s, 0, full=False), None)
             # "recursion": the pumped character nests a recursive rule hundreds of levels deep - the interpreter's recursion
             # limit is a resource limit outside the model (DESIGN 12.3a), not comparable
             if py is not None and py != "recursion":
                 lines.append(f"refends {idx[key]} 0 " + lib.cps(s))
-                expect.append((ns, rule.name, s, 0, py))
+                expect.append((ns, rule.name, s, 0, py, None))
     out = lib.run_driver(lines)
     assert out[0] == "grammar-ok", out[0]
     return expect, out[1:], nrules
@@ -334,8 +352,13 @@ def run(ctx):
     nontrivial = 0
     matched = 0
     reported = set()
-    for (ns, name, s, i, py), model in zip(expect, out[1:]):
+    for (ns, name, s, i, py, pp), model in zip(expect, out[1:]):
         a, b = lib.ends_of(py), lib.ends_of(model)
+        if pp is not None and a == b:
+            # Rule.parse against the text's reading: the longest end (or ParseError when there is none)
+            want = ("ok %d " % max(b)) if isinstance(b, frozenset) and b else b
+            if not (pp.startswith(want) if isinstance(b, frozenset) and b else pp == want):
+                a = "parse: " + pp[:60]
         if isinstance(a, frozenset):
             matched += 1
             if len(a) >= 2:
@@ -372,7 +395,8 @@ def replay(rp):
     world, classes = build_world(P)
     cls = dict(classes)[rp["ns"]]
     s = "".join(chr(c) for c in rp["source"])
-    py = lib.py_lparse(P, cls(rp["rule"]), s, rp["offset"], full=False)
+    import engine_corr as ec
+    py = ec.py_lparse_disturbed(P, cls(rp["rule"]), s, rp["offset"])[0]
     key = (rp["ns"], rp["rule"].lower())
     glines, idx = world.wire([key])
     c = lib.cps(s)
